@@ -942,12 +942,20 @@ func buildC() *cWorld {
 	w.fed = fedKeys()
 	P, err := chainlab.NewPrelude(net, 16)
 	if err != nil {
-		ev.Fatal("prelude: %v", err)
+		// a rejected prelude block cannot be attributed to the validator schedule: the coordinator caps
+		// the parts that run on real blocks; a worker is never started in that case
+		if par.IsWorker() {
+			ev.Fatal("prelude: %v", err)
+		}
+		cwErr = err
+		return nil
 	}
 	w.P = P
 	cw = w
 	return w
 }
+
+var cwErr error
 
 func opName(op int) string {
 	switch {
@@ -1482,7 +1490,9 @@ func main() {
 		}
 	}
 	// (c), and (d) through real blocks
-	buildC()
+	if buildC() == nil {
+		run.Capped(fmt.Sprintf("parts (c) and (d) through real blocks: could not be set up: %v", cwErr))
+	}
 	items := enumerate(run.Pick(3, 4))
 	multi := enumerateMulti([]int{0}, []bool{false}, []bool{false})
 	multiMins := 1
@@ -1492,6 +1502,9 @@ func main() {
 	}
 	cStates, cBlocks, nHist := 0, 0, 0
 	for variant := range cMins {
+		if cwErr != nil {
+			break
+		}
 		spec.Extra = variant
 		its := items
 		if variant < multiMins {
